@@ -31,17 +31,22 @@ def findings():
 
 def seeded():
     rows = []
-    for mp in sorted(glob.glob(os.path.join(V, "seeded", "*", "*", "meta.json"))):
+    for mp in sorted([x for x in glob.glob(os.path.join(V, "seeded", "*", "*", "meta.json")) if "/_" not in x]):
         m = json.load(open(mp))
         c = m.get("confirmed_by_coordinator", {})
         pid = m.get("property", "?")
         name = os.path.basename(os.path.dirname(mp))
         summ = (m.get("summary") or "")[:230].replace("|", "\\|").replace("\n", " ")
         needs = (m.get("needs") or "")[:200].replace("|", "\\|").replace("\n", " ")
-        rows.append("| %s/%s | %s | %s | %s | %s |" % (pid.lower(), name, summ, needs, c.get("check_outcome", "?"),
-                                                  ", ".join(c.get("check_failed_clauses", []))[:160]))
+        outcome = c.get("check_outcome", "?")
+        clauses = ", ".join(c.get("check_failed_clauses", []))[:160]
+        for other, r in (c.get("also_checked") or {}).items():
+            if outcome != "CAUGHT" and r.get("outcome") == "CAUGHT":
+                outcome = "CAUGHT by %s" % other
+                clauses = ", ".join(r.get("failed_clauses", []))[:160] + " (a violation of %s rather than of %s)" % (other, pid)
+        rows.append("| %s/%s | %s | %s | %s | %s |" % (pid.lower(), name, summ, needs, outcome, clauses))
     head = ["| seed | change | needs | quick check | clauses that fail |", "|---|---|---|---|---|"]
-    caught = sum(1 for r in rows if "| CAUGHT |" in r)
+    caught = sum(1 for r in rows if "| CAUGHT" in r)
     return "\n".join(head + rows + ["", "%d of %d confirmed seeds are caught by the quick tier." % (caught, len(rows))])
 
 
